@@ -57,6 +57,14 @@ def check_history(ctx, h, sc, tag):
         C.keep_failing_files(ctx, n0, h.db, h.wal)
         return
     ctx.branch(f"history:{h.kind}")
+    # every section of every version of a pair SQLite wrote must be readable: schema, page census, every table / index /
+    # WITHOUT ROWID b-tree (the dump records the first exception of each section as "<section>=err <class>")
+    import re as _re
+    bad = _re.findall(r"(V\d+\.(?:schema|census|tree\d+))=(err \w+)", impl)
+    if bad:
+        ctx.oracle_fail("version-unreadable", "a section of a version of a database/WAL pair written by SQLite cannot be read: "
+                        + ", ".join(f"{a} {b}" for a, b in bad[:4]), dict(case, sections=[a for a, _ in bad][:8]), bad[0][1], "readable")
+        C.keep_failing_files(ctx, n0, h.db, h.wal)
     versions = vh.versions
     passive = h.kind == "passive_checkpoint"
     if len(versions) != len(h.snapshots):
